@@ -270,6 +270,32 @@ func (x *xExec) do(g string, op XOp) {
 }
 
 func genExclScenario(rng *rand.Rand, profile, mode string) any {
+	if profile == "stress" {
+		// free-running only: long programs of back-to-back calls of every style on two keys, nothing held open: batches
+		// form, hand over and dissolve thousands of times under real contention
+		sc := &XScenario{Profile: profile}
+		fn := 0
+		for d, nd := 0, 3+rng.Intn(2); d < nd; d++ {
+			var ops []XOp
+			for i, n := 0, 80+rng.Intn(80); i < n; i++ {
+				fn++
+				op := XOp{K: "call", Key: []string{"a", "a", "b"}[rng.Intn(3)], Fn: fn, Mode: []string{"early", "late"}[rng.Intn(2)]}
+				switch a := rng.Intn(8); {
+				case a < 2:
+					op.Flip = a == 0
+				default:
+					op.Api = []string{"call", "callafter", "async", "afterasync", "start", "startafter"}[a-2]
+					if (op.Api == "callafter" || op.Api == "afterasync" || op.Api == "startafter") && rng.Intn(2) == 0 {
+						op.WaitUs = 20
+					}
+				}
+				ops = append(ops, op)
+			}
+			sc.Drivers = append(sc.Drivers, ops)
+		}
+		sc.NFn = fn
+		return sc
+	}
 	sc := &XScenario{Profile: profile}
 	nd := 2 + rng.Intn(3)
 	nops := 1 + rng.Intn(3)
